@@ -59,11 +59,16 @@ ProbeVerdict(x) ==
         orderdiff |-> df]))))
 
 (***************************************************************************)
-(* Stage 2.  x.props[i] = [n, cnt, nbit, nan, err15, changed]:             *)
+(* Stage 2.  x.props[i] = [n, cnt, nbit, nan, err15, changed, undef, ubit] *)
 (*   cnt     entries of property / constant n compared                     *)
+(*   undef   entries whose reference value changes when every declared     *)
+(*           matrix starts as NaN instead of 0.0: they depend on a local   *)
+(*           no statement wrote (the generated C leaves it uninitialised)  *)
+(*   ubit    undefined entries on which compiled and reference differ      *)
+(*   over the DEFINED entries:                                             *)
 (*   nbit    entries whose compiled and reference values are not the same  *)
-(*           double (bit for bit)                                          *)
-(*   nan     entries where exactly one of the two is NaN / infinite        *)
+(*           double (NaN = NaN, -0.0 = 0.0)                                *)
+(*   nan     of those, entries where one of the two is NaN / infinite      *)
 (*   err15   max |c - r| / max(|c|, |r|, scale of the property) in units   *)
 (*           of 1e-15 (capped)                                             *)
 (*   changed entries the reference executor changed (non-vacuity)          *)
@@ -73,16 +78,18 @@ ProbeVerdict(x) ==
 Tol15 == 1000
 Within(arith, p) == /\ p.nan = 0
                     /\ IF arith THEN p.nbit = 0 ELSE p.err15 <= Tol15
-\* signatures of recorded findings (known_findings.json), by class of input
-KnownSig(x) ==
-    {}
+\* Known_C02-uninit-declare: the only disagreement is on entries that depend
+\* on a declared matrix no executed statement has written
+KnownUninit(x) == /\ \A i \in DOMAIN x.props : Within(x.arith, x.props[i])
+                  /\ \E i \in DOMAIN x.props : x.props[i].ubit > 0
 
 ClassVerdict(x) ==
     LET bad == IF Failed(x) THEN {"<crash>"}
-               ELSE {x.props[i].n : i \in {j \in DOMAIN x.props : ~Within(x.arith, x.props[j])}}
+               ELSE {x.props[i].n : i \in {j \in DOMAIN x.props :
+                        ~Within(x.arith, x.props[j]) \/ x.props[j].ubit > 0}}
     IN [id |-> x.id, kind |-> "class", cls |-> x.cls, kernel |-> x.kernel, dim |-> x.dim,
         ok |-> bad = {}, failed |-> bad, crashed |-> Failed(x),
-        known |-> IF bad = {} THEN {} ELSE KnownSig(x),
+        known |-> IF ~Failed(x) /\ KnownUninit(x) THEN {"C02-uninit-declare"} ELSE {},
         exact |-> ~Failed(x) /\ \A i \in DOMAIN x.props : x.props[i].nbit = 0,
         nontrivial |-> ~Failed(x) /\ \E i \in DOMAIN x.props : x.props[i].changed > 0,
         compared |-> IF Failed(x) THEN 0
